@@ -70,6 +70,32 @@ __CPROVER_ensures(SET_EQ(__CPROVER_return_value._value.i, this->_value.i) && SET
 ENS_CLONE_PAYLOADS
 ;
 
+/* void Value::swap(Value&& v) noexcept : move v into *this (the old payload is released), v is left null */
+void _ZN4bloc5Value4swapEOS0_(struct Value *this, struct Value *v)
+__CPROVER_requires(__exc == 0)
+__CPROVER_assigns(VALUE_FIELDS(this), v->_flags)
+__CPROVER_ensures(__exc == 0)
+__CPROVER_ensures(this != v ==> (this->_flags == __CPROVER_old(v->_flags) && V_MAJOR(this) == __CPROVER_old(V_MAJOR(v)) && V_MINOR(this) == __CPROVER_old(V_MINOR(v)) &&
+                                 V_LEVEL(this) == __CPROVER_old(V_LEVEL(v)) && this->_value.i == __CPROVER_old(v->_value.i) && v->_flags == 0))
+__CPROVER_ensures(this == v ==> (this->_flags == __CPROVER_old(this->_flags) && this->_value.i == __CPROVER_old(this->_value.i) && V_MAJOR(this) == __CPROVER_old(V_MAJOR(this)) &&
+                                 V_MINOR(this) == __CPROVER_old(V_MINOR(this)) && V_LEVEL(this) == __CPROVER_old(V_LEVEL(this))))
+;
+/* Value::Value(Literal * v) */
+struct std_string;
+void _ZN4bloc5ValueC1EPNSt7__cxx1112basic_stringIcSt11char_traitsIcESaIcEEE(struct Value *this, struct std_string *v)
+__CPROVER_requires(__exc == 0)
+__CPROVER_assigns(VALUE_FIELDS(this))
+__CPROVER_ensures(__exc == 0 && V_IS(this, LITERAL) && V_MINOR(this) == 0)
+__CPROVER_ensures(v != 0 ==> (this->_flags == F_NOTNULL && PTR_EQ(this->_value.p, v)))
+__CPROVER_ensures(v == 0 ==> this->_flags == 0)
+;
+/* std::string Value::toString() const, Value::typeName() const : some string (only used in error messages) */
+#ifdef HAVE_STD_STRING
+struct std_string _ZNK4bloc5Value8toStringB5cxx11Ev(const struct Value *this) { struct std_string s; (void)this; ((unsigned long *)&s)[1] = __g2c_nondet_ulong(); return s; }
+struct std_string _ZNK4bloc9TupleDecl4Decl9tupleNameB5cxx11Ev(const void *this) { struct std_string s; (void)this; ((unsigned long *)&s)[1] = __g2c_nondet_ulong(); return s; }
+struct std_string _ZNK4bloc5Value8typeNameB5cxx11Ev(const struct Value *this) { struct std_string s; (void)this; ((unsigned long *)&s)[1] = __g2c_nondet_ulong(); return s; }
+#endif
+
 /* Value::Value(Imaginary * v) : takes ownership of v (null pointer => typed null) */
 struct Imaginary;
 void _ZN4bloc5ValueC1EPNS_9ImaginaryE(struct Value *this, struct Imaginary *v)
